@@ -3,3 +3,8 @@
 // compact gates.
 #[cfg(all(not(feature = "shuttle"), descriptive_gate))]
 include!(concat!(env!("IPA_VERIF_DIR"), "/h5_runner_body.rs"));
+
+// C19 drives `reshard_aad` from the crate root (through hook H8, which re-exports this module
+// from `crate::query`).
+#[allow(unused_imports)]
+pub(crate) use super::reshard_tag::reshard_aad;
